@@ -54,6 +54,13 @@ pub fn class_of(path: &[String]) -> String {
     path.iter().filter(|s| s.parse::<usize>().is_err()).cloned().collect::<Vec<_>>().join(".")
 }
 
+/// class of an ARRAY: indices become `#`, so an array, its element arrays and their element arrays
+/// (`evals_proofs`, `evals_proofs.#` = a (leaf, proof) pair, `evals_proofs.#.#` = a leaf) are
+/// different classes and each gets its own share of the surgery budget
+pub fn class_of_arr(path: &[String]) -> String {
+    path.iter().map(|s| if s.parse::<usize>().is_ok() { "#".to_string() } else { s.clone() }).collect::<Vec<_>>().join(".")
+}
+
 pub fn verdict(data: &CircuitData<F, C, 2>, p: &Pwpi) -> String {
     match std::panic::catch_unwind(std::panic::AssertUnwindSafe(|| data.verify(p.clone()))) {
         Ok(r) => plonk_verdict(r),
@@ -160,7 +167,7 @@ pub fn emit(e: &mut Emitter, seed: u64, thorough: bool) {
         }
         // list surgery on every array class
         let mut arr_by_class: std::collections::BTreeMap<String, Vec<Vec<String>>> = Default::default();
-        for a in arrays { arr_by_class.entry(class_of(&a)).or_default().push(a); }
+        for a in arrays { arr_by_class.entry(class_of_arr(&a)).or_default().push(a); }
         for (cls, als) in &arr_by_class {
             for surgery in 0..3 {
                 let path = r.pick(als).clone();
